@@ -59,6 +59,9 @@ def _run_closure(prog, cls, flag, preset=(), inf_core=False):
         ip.declare(s, k)
     o = ip.construct(cls, [], {'apply_hard_core': Const(flag)})
     o.origin = 'self'
+    # r, gamma and the stored potential are arrays over the same real-space grid (that is how PRISM.cost calls a closure):
+    # a refusal of equal lengths is a refusal of every valid call
+    ip.len_alias = {'g': 'r', 'u': 'r', 'uinf': 'r'}
     if inf_core:
         # a genuinely divergent core: the potential is +infinity at every grid point with r <= sigma
         ip.declare('uinf', 'curve')
@@ -239,7 +242,13 @@ def rule_definition(ctx, rule='R09.d'):
                 cases = [ev for ev in regions if _feasible('gt', ev)] if has_core else regions
                 if not cases:
                     raise Unsupported('no feasible region outside the core')
-            except (Unsupported, Raised) as e:
+            except Raised as e:
+                # every path of calculate on a valid call (arrays over one grid, potential and sigma set) ends in an exception
+                n += 1
+                ctx.violation(rule, cname, 'raises:flag=%s' % flag, 'apply_hard_core=%s: calculate raises %s (%s) for every valid '
+                              'call: r, gamma and the potential on one grid, sigma set' % (flag, e.exc, (e.msg or '')[:100]), f.loc())
+                continue
+            except Unsupported as e:
                 ctx.undecided(rule, cname, 'apply_hard_core=%s: %s' % (flag, e), f.loc())
                 continue
             n += 1
